@@ -12,24 +12,15 @@ From DV Require Import Base.MachInt Model.ChunkModel Gen.GenChunk Model.ParForMo
 Import ListNotations.
 Local Open Scope Z_scope.
 
-(* par_for_stripe.h:176 alignDownStripe<IntegerT>(value, granularity): arithmetic in int (narrow kinds) resp.
-   in IntegerT; every static_cast<IntegerT> narrows.  For int32/int64 an out-of-range d*g is signed overflow in
-   the source; the model keeps what the hardware does (two's complement), the partition theorems do not depend
-   on the value (initStripeState clamps it). *)
-Definition align_down (k : ikind) (value gran : Z) : Z :=
-  if gran <=? 1 then value else
-  let g := castk k gran in
-  let d := castk k (Z.quot value g) in
-  let d1 := if ik_signed k && negb (d * g =? value) && (value <? 0) then castk k (d - 1) else d in
-  castk k (d1 * g).
-
-(* par_for_stripe.h:416-447: end of stripe i given the running cursor *)
+(* par_for_stripe.h:416-451: end of stripe i given the running cursor.  The stripe length (offset from start) is
+   aligned down to a multiple of the granularity (state.granularity = max 1 g), then clamped into [cursor, end] *)
 Definition stripe_end (k : ikind) (s e P g i cursor : Z) : Z :=
   if i + 1 =? P then e else
   let total := wop (wide k) (e - s) in
   let per := Z.quot total P in
-  let endWide := wop (wide k) (s + wop (wide k) (wrap 32 (i + 1) * per)) in
-  let se := align_down k (castk k endWide) (Z.max 1 g) in
+  let off := wop (wide k) (wrap 32 (i + 1) * per) in
+  let off1 := wop (wide k) (off - Z.rem off (Z.max 1 g)) in
+  let se := castk k (wop (wide k) (s + off1)) in
   let se1 := if se <=? cursor then cursor else se in
   if e <=? se1 then e else se1.
 
@@ -52,9 +43,8 @@ Definition stripe_bounds (c : scfg) : list (Z * Z) :=
 (* stripe j's [begin, end); indices beyond the last stripe never occur (the default is an empty stripe at the end) *)
 Definition sb (c : scfg) (j : nat) : Z * Z := nth j (stripe_bounds c) (sc_e c, sc_e c).
 
-(* state.chunkSize = static_cast<IntegerT>(adaptiveChunkSize) (parallel_for.h:498): narrowed to the index type;
-   stripeClaim widens it again (value preserving) *)
-Definition sc_step (c : scfg) : Z := castk (sc_k c) (sc_cs c).
+(* state.chunkSize: kept in the wide (cursor) type, exactly the size_type chunk size computed by calcChunkSize *)
+Definition sc_step (c : scfg) : Z := sc_cs c.
 
 Inductive wphase := WOwn | WSteal (last : option nat) | WDone.
 Record sstate := SS {
